@@ -27,9 +27,10 @@
    of nodes satisfying the match predicate, and the surgery is driven by [fmatch].  A pad file made by
    CreatePadFile is a new object that is never in Matches: the loops never test it.
 
-   The regular-expression layer is the [pred] oracle of DESIGN 5.0: arguments are literal texts, the
-   anchored case-insensitive regexp is ASCII-case-insensitive equality [ci_eqb] (exact for arguments
-   without regexp metacharacters and names without U+017F / U+212A).
+   The regular-expression layer is the [pred] oracle of DESIGN 5.0: a literal argument ([TLit]) is
+   ASCII-case-insensitive equality [ci_eqb] (exact for arguments without regexp metacharacters and
+   names without U+017F / U+212A); a pattern ([TSet]) is given by the set of texts it matches in
+   full, which the executor computes independently of fiano's predicate builders.
 
    Not modelled: a nil NewFile (NewFile answers (nil, nil) for erased bytes: [parse_cli] reports
    E_CLI), `insert pad_file` (fails at ParseCLI: erase polarity still poisoned), remove_dxes_except,
@@ -95,7 +96,8 @@ Definition ci_eqb (a b : bytes) : bool := bytes_eqb (map lower a) (map lower b).
    volume name: FindFileFVPredicate) or a file type (insert_dxe) *)
 Inductive sel :=
 | SText (fvp : bool) (a : bytes)
-| SType (t : Z).
+| SType (t : Z)
+| SAny (fvp : bool) (l : list bytes).   (* a pattern, given as the set of texts it matches in full *)
 
 (* FirmwareVolume.FVName: the zero GUID when the volume has no extended header *)
 Definition fv_name (h : volhdr) : bytes :=
@@ -105,15 +107,18 @@ Definition pred_file (s : sel) (h : filehdr) : bool :=
   match s with
   | SText _ a => ci_eqb (guid_string (f_guid h)) a
   | SType t => f_type h =? t
+  | SAny _ l => existsb (ci_eqb (guid_string (f_guid h))) l
   end.
 Definition pred_sec (s : sel) (h : sechdr) : bool :=
   match s with
   | SText _ a => ci_eqb (s_name h) a
   | SType _ => false
+  | SAny _ l => existsb (ci_eqb (s_name h)) l
   end.
 Definition pred_fv (s : sel) (h : volhdr) : bool :=
   match s with
   | SText true a => ci_eqb (guid_string (fv_name h)) a
+  | SAny true l => existsb (ci_eqb (guid_string (fv_name h))) l
   | _ => false
   end.
 
@@ -441,11 +446,20 @@ Definition asm_bios_pinned (elems : list node) (length : Z) (st : ast)
 
 (* ---------- the command line: ParseCLI, uefi.Parse, ExecuteCLI, Save ---------- *)
 
+(* what an operation names: a literal text, or a regular expression given by the set of texts
+   (file GUID texts, UI names, volume names) that it matches in full - the [pred] oracle of DESIGN
+   5.0, computed by the executor with an independent full-match evaluation *)
+Inductive tsel :=
+| TLit (a : bytes)
+| TSet (l : list bytes).
+Definition sel_of (fvp : bool) (t : tsel) : sel :=
+  match t with TLit a => SText fvp a | TSet l => SAny fvp l end.
+
 (* an operation as written on the command line *)
 Inductive op :=
-| OInsert (it : itype) (a : bytes) (fb : bytes)   (* target text; bytes of the file to insert *)
-| ORemove (pad : bool) (a : bytes)
-| OReplacePE32 (a : bytes) (pe : bytes)
+| OInsert (it : itype) (a : tsel) (fb : bytes)   (* target; bytes of the file to insert *)
+| ORemove (pad : bool) (a : tsel)
+| OReplacePE32 (a : tsel) (pe : bytes)
 | ORead.                                         (* find json table count validate cat dump comment *)
 
 (* the visitor ParseCLI builds *)
@@ -462,10 +476,10 @@ Definition parse_op (d : nat) (pol : Z) (o : op) : outcome (cop * Z) :=
     let '(fo, pol') := fp in
     match fo with
     | None => Err E_CLI
-    | Some nf => Ok (CInsert it (match it with IDxe => SType fv_filetype_dxecore | _ => SText true a end) nf, pol')
+    | Some nf => Ok (CInsert it (match it with IDxe => SType fv_filetype_dxecore | _ => sel_of true a end) nf, pol')
     end
-  | ORemove pad a => Ok (CRemove pad (SText false a), pol)
-  | OReplacePE32 a pe => Ok (CReplacePE32 (SText false a) pe, pol)
+  | ORemove pad a => Ok (CRemove pad (sel_of false a), pol)
+  | OReplacePE32 a pe => Ok (CReplacePE32 (sel_of false a) pe, pol)
   | ORead => Ok (CRead, pol)
   end.
 
